@@ -123,6 +123,10 @@ func c15Value(kind string, id string, c string, explicit J) ap.Item {
 		exp = ap.IRI(explicit["s"].(string))
 	case "object":
 		exp = &ap.OrderedCollection{ID: ap.IRI(explicit["s"].(string)), Type: ap.OrderedCollectionType}
+	case "nil-pointer":
+		exp = (*ap.OrderedCollection)(nil)
+	case "empty-iri":
+		exp = ap.IRI("")
 	}
 	switch kind {
 	case "iri":
